@@ -5,7 +5,7 @@ container; oracle = the property predicate evaluated on the real code (index enu
 import os, sys, bisect, re
 
 GEN = ['gen_log2_64.json', 'gen_log2_32.json', 'gen_segsqrt.json', 'gen_segcnst.json', 'gen_arr_sqrt.json', 'gen_arr_cnst.json', 'gen_arr_log.json',
-       'gen_shift_sqrt.json', 'gen_shift_cnst.json']
+       'gen_shift_sqrt.json', 'gen_shift_cnst.json', 'gen_shiftx_sqrt.json', 'gen_shiftx_cnst.json']
 M64 = 2 ** 64
 PAR = 8
 
@@ -229,8 +229,11 @@ def gen_ghist_cases(ctx, scale):
             elif t < 95: ops.append('C'); cnt = 0
             elif t < 97: ops.append(r.choice('no'))
             elif cnt <= 500:   # Insert / Remove in the middle through the regenerated ArrayShifter (kept small: the driver re-evaluates the cell function)
-                if r.chance(1, 2):
-                    m = r.choice([0, 1, 2, r.range(1, 30)]); p_ = r.choice([0, cnt, r.below(cnt + 1)]); ops.append('I%d:%d' % (p_, m)); cnt += m
+                t2 = r.below(5)
+                if t2 == 4:    # Remove(filter) through the regenerated filter shifter; the count afterwards depends on the values: re-synchronise with SetCount
+                    ops.append('F%d' % r.choice([2, 3, 5])); c2 = r.below(min(limit, 400) + 1); ops.append('s%d' % c2); cnt = c2
+                elif t2 <= 1:
+                    m = r.choice([0, 1, 2, r.range(1, 30)]); p_ = r.choice([0, cnt, r.below(cnt + 1)]); ops.append('%s%d:%d' % (r.choice('IJ'), p_, m)); cnt += m
                 else:
                     p_ = r.choice([0, cnt, r.below(cnt + 1)]); m = min(r.choice([0, 1, r.below(cnt - p_ + 1), cnt - p_]), cnt - p_); ops.append('D%d:%d' % (p_, m)); cnt -= m   # AddBackNogrow when there is room; the generator's count stays a lower bound
         cases.append('ghist %s %d %s' % (F, L, ' '.join(ops)))
@@ -413,6 +416,35 @@ def shrink_hist(ctx, harness, case):
     return ' '.join(head + ops)
 
 # ------------------------------------------------------------------ AST facts: the glue bodies that are NOT translated function by function
+def predump_asts(ctx):
+    """cold-start time: the 11 translator configs + the facts need only 4 distinct clang AST dumps (tu, filter); run them in parallel once
+    and let cxx2coq.dump_ast serve them from memory (this process only)"""
+    import json as _json, concurrent.futures as cf
+    import cxx2coq
+    keys = {}
+    for cfn in GEN:
+        c = _json.load(open(os.path.join(ctx.pdir, cfn)))
+        keys[(c['tu'], c['filter'])] = c
+    for flt in ('SegmentedArray', 'ArrayShifter'):
+        keys.setdefault((os.path.join(ctx.pdir, 'inst_arr.cpp'), flt), {'tu': os.path.join(ctx.pdir, 'inst_arr.cpp'), 'filter': flt})
+    orig = cxx2coq.dump_ast
+    if getattr(orig, '_c16_memo', None) is not None:
+        return
+    memo = {}
+    def one(k):
+        c = dict(keys[k]); c.setdefault('includes', [os.path.join(ctx.repo, 'include')])
+        try: return k, orig(c, ctx.repo)
+        except cxx2coq.TranslationError: return k, None
+    with cf.ThreadPoolExecutor(max_workers=4) as ex:
+        for k, txt in ex.map(one, list(keys)):
+            if txt is not None: memo[k] = txt
+    def dump_ast(cfg, repo='/repo'):
+        k = (cfg['tu'], cfg['filter'])
+        if k in memo and not cfg.get('defines') and cfg.get('std', 'c++17') == 'c++17': return memo[k]
+        return orig(cfg, repo)
+    dump_ast._c16_memo = memo
+    cxx2coq.dump_ast = dump_ast
+
 def gen_seg_facts(ctx):
     """T-gen (AST facts, after props/C05 gen_array_facts / props/C14): the statements of the thin members of SegmentedArray that only
     compose translated functions (Insert overloads, InsertCrt, pvInsert, Remove overloads, forwarding members) and of the untranslated
@@ -584,11 +616,12 @@ def run(ctx):
     ctx.assumptions += ['0 <= logInitialItemCount < 64 (shift counts of size_t)',
                         'sqrt sizing: every size_t index except (L = 0, index = SIZE_MAX) where index1 = (index >> L) + 1 wraps (theorem C16_sqrt_top_L0_aliases states what happens there); GetItemCount additionally not (L = 63, index >= 2^63: shift by 64)',
                         'L1 capacity model: element construction/destruction and allocation failure are not modelled (no-throw histories)']
+    predump_asts(ctx)
     ctx.regen(GEN)
     if not gen_seg_facts(ctx):
         ctx.stage('regen', False, 'SegFacts extraction failed: ' + str(ctx.tie_obligations[-1].get('error')))
     ctx.prove()
-    harness = ctx.cxx('harness.cpp', 'harness')
+    harness = ctx.cxx('harness.cpp', 'harness', ['-O0', '-g0'] if ctx.quick() else [])   # quick: compile time dominates the harness's run time
     if harness is None:
         ctx.stage('build-harness', False, getattr(ctx, 'last_cxx_error', ''))
         return ctx.finish(rule=RULE)
